@@ -16,9 +16,10 @@ LEVEL = "exploration"
 SUB_RC = (("P", ("L",), ("L",)), [G.entry("R", {"R": 3.0}), G.entry("C", {"C": 2e-5})])
 PALETTE = {
     "R": G.entry("R"), "C": G.entry("C"), "L": G.entry("L"), "La": G.entry("La"), "Q": G.entry("Q"), "W": G.entry("W"),
-    "Zarc": G.entry("Zarc"), "Tlmbq": G.entry("Tlmbq"), "Tlm": G.entry("Tlm"), "TlmN": G.entry("Tlm", sub={"X_1": SUB_RC, "Z_B": (("L",), [G.entry("Tlm")])}, name="TlmN"),
+    "Zarc": G.entry("Zarc"), "Tlm": G.entry("Tlm"), "TlmN": G.entry("Tlm", sub={"X_1": SUB_RC, "Z_B": (("L",), [G.entry("Tlm")])}, name="TlmN"),
 }
 SMALL = ["R", "C", "Q", "Tlm", "TlmN"]
+EXTRA = {"Tlmbq": G.entry("Tlmbq")}   # only used in the label sweep (parameter names Y_B / n_B can collide with a label)
 LABELS = ["", "a", "a b", "R1", "x_1", "1a", "_a", "a{b}c", "a:b", "a,b=2", "a}b", "-x", "Z(1)", "a/b%", "x^2", "a_b_c", "$", "\\alpha", "B", "n"]
 _ST: Dict[str, Any] = {}
 
@@ -188,7 +189,7 @@ def check_circuit(c, tree, label: str, st) -> Tuple[List[dict], str]:
 def run_case(case: dict, st=None):
     st = st or setup()
     tree = case["tree"]
-    c = G.circuit_from_objects(tree, [PALETTE[n] for n in case["fill"]])
+    c = G.circuit_from_objects(tree, [PALETTE.get(n) or EXTRA[n] for n in case["fill"]])
     if case.get("label"):
         els = walk(c, st, False)
         if els:
@@ -276,7 +277,7 @@ def cases(thorough: bool) -> List[dict]:
 def run(ctx) -> None:
     thorough = ctx.tier == "thorough"
     setup()
-    ctx.rule = ("every canonical skeleton with <= 3 leaves over a 10-entry palette {R, C, L, La, Q, W, Zarc, Tlmbq, Tlm, Tlm with nested (RC) and a nested "
+    ctx.rule = ("every canonical skeleton with <= 3 leaves over a 9-entry palette {R, C, L, La, Q, W, Zarc, Tlm, Tlm with nested (RC) and a nested "
                 "Tlm}, the object-only shapes over 5 entries, 4 leaves (5 in thorough) over 5 (3) entries (rotating fillings in quick, full product "
                 "in thorough), and 19 labels (incl. labels that equal the suffix of a parameter name, e.g. 'B' next to Y_B) (every first-character class, CDC and LaTeX metacharacters) at every position of four small circuits; "
                 "only circuits that simulate are judged. Oracles: to_sympy / to_sympy(substitute) / to_latex / to_circuitikz (default, running, "
